@@ -303,6 +303,11 @@ func (s *Sim) Learn(st *Step) {
 	if a.Secret2 != "" && (strings.HasSuffix(a.Kind, "_validate") || strings.HasSuffix(a.Kind, "_remove")) {
 		kind := strings.SplitN(a.Kind, "_", 2)[0]
 		sub := s.AcctByPID(rec.SessIn["uid"])
+		if sub == nil && s.RememberActive() {
+			if c := s.Cookies[rec.CookiesIn["rm"]]; c != nil && SessPutAny(rec, "uid", c.PID) && SessPutAny(rec, "halfauth", "true") {
+				sub = s.AcctByPID(c.PID) // re-authenticated by the remember middleware in this request
+			}
+		}
 		if sub == nil {
 			sub = s.AcctByPID(rec.SessIn[kind+"_pending"])
 		}
